@@ -161,13 +161,21 @@ class WatermarkPoolSink(PoolSink):
     Args:
       sink - An open sink.
     """
-    sink_stack, msg, stream, headers = self._waiters.popleft()
-    self._varz.queue_size(len(self._waiters))
-    # The stack has a QueuingChannelSink on the top now, pop it off
-    # and push the real stack back on.
-    orig_sink, ctx = sink_stack.Pop()
-    sink_stack.Push(orig_sink, sink)
-    sink.AsyncProcessRequest(sink_stack, msg, stream, headers)
+    while self._waiters:
+      sink_stack, msg, stream, headers = self._waiters.popleft()
+      self._varz.queue_size(len(self._waiters))
+      if not sink_stack.Any():
+        # This waiter has already completed (e.g. it timed out while it was
+        # queued), skip it and give the sink to the next one.
+        continue
+      # The stack has a QueuingChannelSink on the top now, pop it off
+      # and push the real stack back on.
+      orig_sink, ctx = sink_stack.Pop()
+      sink_stack.Push(orig_sink, sink)
+      sink.AsyncProcessRequest(sink_stack, msg, stream, headers)
+      return
+    # Nobody is waiting any more, return the sink to the pool.
+    self._Release(sink)
 
   def Open(self):
     ar = AsyncResult()
